@@ -6,6 +6,7 @@ import (
 
 	"verif/sim"
 
+	"github.com/brewlin/net-protocol/pkg/buffer"
 	"github.com/brewlin/net-protocol/pkg/rand"
 	"github.com/brewlin/net-protocol/pkg/waiter"
 	tcpip "github.com/brewlin/net-protocol/protocol"
@@ -40,6 +41,7 @@ type ABCfg struct {
 	Reorder     float64 `json:"reorder"`
 	Stale       float64 `json:"stale"`
 	Delay       float64 `json:"delay"`
+	WriteErr    float64 `json:"link_write_error,omitempty"`
 	Budget      int     `json:"fault_budget"`
 	YieldP      float64 `json:"yield_p"`
 	MaxSteps    int     `json:"max_steps"`
@@ -175,6 +177,7 @@ func GenABCfg(rng *sim.Rand, tier string, prop string) ABCfg {
 		c.Reorder = []float64{0, 0.05, 0.25}[rng.Intn(3)]
 		c.Stale = []float64{0, 0.01, 0.05}[rng.Intn(3)]
 		c.Delay = []float64{0, 0.02, 0.1}[rng.Intn(3)]
+		c.WriteErr = []float64{0, 0, 0.02, 0.05}[rng.Intn(4)]
 		c.Budget = []int{3, 10, 40, 200, 1000}[rng.Intn(5)]
 	}
 	if rng.Chance(0.5) {
@@ -218,12 +221,19 @@ func NewABWorld(seed uint64, cfg ABCfg) *ABWorld {
 	must(ep.Listen(8), "Listen")
 	w.lep = ep
 	if cfg.Budget > 0 {
-		w.fc = &FaultCfg{Drop: cfg.Drop, Dup: cfg.Dup, Reorder: cfg.Reorder, Stale: cfg.Stale, Delay: cfg.Delay, Budget: cfg.Budget, MaxDelay: 3 * time.Second}
+		w.fc = &FaultCfg{Drop: cfg.Drop, Dup: cfg.Dup, Reorder: cfg.Reorder, Stale: cfg.Stale, Delay: cfg.Delay, WriteErr: cfg.WriteErr, Budget: cfg.Budget, MaxDelay: 3 * time.Second}
 		if cfg.DropOnly {
-			w.fc = &FaultCfg{Drop: cfg.Drop, Budget: cfg.Budget, Undroppable: func(f *Frame) bool {
+			// a frame the emitting device refuses is a loss like any other; resets are spared, as on the wire
+			w.fc = &FaultCfg{Drop: cfg.Drop, WriteErr: cfg.WriteErr, Budget: cfg.Budget, Undroppable: func(f *Frame) bool {
 				t, ok := peekTCP(f)
 				return ok && t.Flags&0x04 != 0
 			}}
+			for _, n := range w.N {
+				n.Link.FailGuard = func(proto tcpip.NetworkProtocolNumber, hdr buffer.View, payload buffer.VectorisedView) bool {
+					t, ok := peekTCP(&Frame{Proto: proto, Data: append(append([]byte(nil), hdr...), payload.ToView()...)})
+					return ok && t.Flags&0x04 != 0
+				}
+			}
 		}
 	}
 	if len(cfg.DropIDs) > 0 {
@@ -242,6 +252,12 @@ func NewABWorld(seed uint64, cfg ABCfg) *ABWorld {
 	w.OnEmit = w.onEmit
 	w.OnDeliver = w.onDeliver
 	w.OnDrop = w.onDrop
+	w.OnLinkError = func(f *Frame) {
+		// a frame the device refused was sent as far as the stack is concerned, and lost
+		w.lostDuringClose = true
+		w.onEmit(f)
+		w.onDrop(f)
+	}
 	w.Settle()
 	return w
 }
